@@ -911,13 +911,20 @@ class Run:
         self.calls = 0
         self.snap: Dict[int, Any] = {}
         self.applied: List[Any] = []
+        self.applied_by: Dict[int, Any] = {}
         self.undone: List[Any] = []
+        self.spec_count: Dict[int, int] = {}
 
     def on_reset(self, m, cur):
         self.resets.append((m, cur))
         # work thrown away by this reset (C16): constructs parsed by callees / tokens taken by the method itself after the mark
         undone_stubs = [(nm, n.nt) for (nm, n, s0, e0) in self.stub_calls if s0 >= m and e0 <= cur and e0 > s0]
-        undone_own = len([i for i in self.consumed_by_method if m <= i < cur])
+        own = [i for i in self.consumed_by_method if m <= i < cur]
+        undone_own = len(own)
+        for i in set(own):
+            self.spec_count[i] = self.spec_count.get(i, 0) + 1
+        # tokens taken back are no longer "consumed": a later pass over them counts again
+        self.consumed_by_method = [i for i in self.consumed_by_method if not (m <= i < cur)]
         self.undone.append((m, cur, undone_stubs, undone_own))
         for n in self.pre:
             if n.start >= m and isinstance(n, Group):
@@ -976,6 +983,7 @@ class Run:
             if gx.g.nts[n.nt].args.get("apply"):
                 r = gx.resolve_coords(v(*a, **kw), n)
                 self.applied.append(r)
+                self.applied_by[id(n)] = r
                 return r
             return v
 
@@ -1005,6 +1013,8 @@ class Run:
         for name in gx.parse_methods:
             if (name == self.method and name in REAL_RECURSIVE) or name in self.real or name in REAL_HELPERS:
                 continue
+            if name not in gx.g.accepts and name not in getattr(gx.g, "accepts_fn", {}) and name != self.method:
+                continue  # a helper the reference grammar does not know (e.g. newly extracted): it runs for real
             setattr(p, name, self.make_stub(name))
         errs = self.errors
 
@@ -1110,10 +1120,14 @@ def explore(gx: GX, method: str, nt: str, prod: Prod, flat, shape, follow, args=
     root = gx.instantiate(prod, flat, shape, 0)
     lazy = bool(follow) and isinstance(follow[0], tuple) or follow == [()]
     cands = list(follow) if lazy else None
+    # two queues: structural refinements (marker expansions, and the first candidate of every choice) are explored before
+    # the remaining candidates of class / follow / result-shape choices, so that every structure the code can reach is
+    # seen with some choice before the budget is spent on enumerating choices of earlier structures
     work = collections.deque([(root, None if lazy else list(follow))])
+    later = collections.deque()
     runs = 0
-    while work:
-        tree, fol = work.popleft()  # breadth first: shallow refinements before deep ones
+    while work or later:
+        tree, fol = work.popleft() if work else later.popleft()
         runs += 1
         if runs > budget:
             notes.append(f"budget of {budget} runs exhausted for {prod.label}")
@@ -1122,16 +1136,19 @@ def explore(gx: GX, method: str, nt: str, prod: Prod, flat, shape, follow, args=
         run = Run(gx, method, tree, fctx, args, kwargs, real)
         run.follow_used = fol
 
+        first_fork = [True]
+
         def fork(mutate):
             memo = {}
             t2 = clone_tree(tree, memo)
             mutate(memo)
-            work.append((t2, fol))
+            (work if first_fork[0] else later).append((t2, fol))
+            first_fork[0] = False
         try:
             oc = run.execute()
         except NeedFollow:
-            for c in cands:
-                work.append((clone_tree(tree, {}), tuple(c)))
+            for k, c in enumerate(cands):
+                (work if k == 0 else later).append((clone_tree(tree, {}), tuple(c)))
             continue
         except NeedVariant as e:
             m = e.mark
@@ -1335,6 +1352,8 @@ class MayRun:
         self.parser = p
         for name in gx.parse_methods:
             if (name == self.method and name in REAL_RECURSIVE) or name in REAL_HELPERS:
+                continue
+            if name not in gx.g.accepts and name not in getattr(gx.g, "accepts_fn", {}) and name != self.method:
                 continue
             setattr(p, name, self.make_stub(name))
         errs = self.errors
